@@ -76,6 +76,47 @@ func init() {
 		st.mutexes[p.Obj] = true
 		return retExit(st, e.tc.True)
 	}
+	// sync.WaitGroup: the counter lives in the struct's sema field (uint32); Wait parks until it is zero
+	wgCount := func(e *Engine, st *State, p PtrV) (PtrV, int64) {
+		f := PtrV{Obj: p.Obj, Path: appendPath(p.Path, PathElem{I: 2})}
+		if t, ok := e.load(st, f).(*Term); ok && t.IsConst() {
+			return f, t.SVal()
+		}
+		return f, 0
+	}
+	stubs["(*sync.WaitGroup).Add"] = func(e *Engine, st *State, fr *Frame, fn *ssa.Function, args []Value, pos token.Pos) []exit {
+		p := args[0].(PtrV)
+		d, ok := isConstTerm(args[1])
+		if !ok {
+			panic(unsupported("sync.WaitGroup.Add with a symbolic delta"))
+		}
+		f, n := wgCount(e, st, p)
+		n += d.SVal()
+		if n < 0 {
+			e.reportPanic(st, e.tc.True, "sync: negative WaitGroup counter", pos)
+			return []exit{{st: st, kind: exitPanic, pmsg: "sync: negative WaitGroup counter"}}
+		}
+		e.store(st, f, e.tc.BV(uint64(n), 32))
+		if n == 0 {
+			var px []exit
+			var out []exit
+			for _, s2 := range e.wake(st, p.Obj, &px) {
+				out = append(out, exit{st: s2, kind: exitReturn})
+			}
+			return append(out, px...)
+		}
+		return retExit(st, nil)
+	}
+	stubs["(*sync.WaitGroup).Done"] = func(e *Engine, st *State, fr *Frame, fn *ssa.Function, args []Value, pos token.Pos) []exit {
+		return stubs["(*sync.WaitGroup).Add"](e, st, fr, fn, []Value{args[0], e.bv64(-1)}, pos)
+	}
+	stubs["(*sync.WaitGroup).Wait"] = func(e *Engine, st *State, fr *Frame, fn *ssa.Function, args []Value, pos token.Pos) []exit {
+		p := args[0].(PtrV)
+		if _, n := wgCount(e, st, p); n > 0 {
+			return []exit{{st: st, kind: exitPark, wait: p.Obj, pmsg: "sync.WaitGroup.Wait"}}
+		}
+		return retExit(st, nil)
+	}
 	// sync.Once: the done flag lives in the struct's first field
 	stubs["(*sync.Once).Do"] = func(e *Engine, st *State, fr *Frame, fn *ssa.Function, args []Value, pos token.Pos) []exit {
 		p := args[0].(PtrV)
